@@ -16,7 +16,7 @@ from . import hashmodel as hm
 
 TRUSTED = ["inner Client contract (raising exit => socket closed)", "pool contracts (C09)"]
 ASSUMPTIONS = ["inner clients are built with ignore_exc=False (proved in C16: _create_client)"]
-NOT_COVERED = ["get_many / gets_many of all three classes (multi-key fetch not mechanised)",
+NOT_COVERED = ["get_many / gets_many of HashClient (group-by over maps of sequences not mechanised; Client and PooledClient are covered)",
                "input errors (MemcacheIllegalInputError before any I/O) are not server or network failures"]
 BUDGET = {"quick": 30, "thorough": 120}
 FILTER_BY_PROPERTY = True
@@ -26,5 +26,7 @@ DEPENDS = ["C13"]      # _safely_run_func's contract: nothing escapes with ignor
 def build(E, tier):
     pm.verify_pooled_client(E, methods=pm.READS)
     cm.verify_fetch_cmd(E, names=("get", "gets", "gat", "gats") if tier == "thorough" else ("get", "gats"))
+    cm.verify_fetch_many(E, names=("get", "gets") if tier == "thorough" else ("get",),
+                         iter_kinds=("re-iterable", "one-shot") if tier == "thorough" else ("one-shot",))
     cm.verify_public_fetch(E)
     hm.verify_hash_single(E)
